@@ -7,7 +7,7 @@
 From Coq Require Import List Bool ZArith.
 Import ListNotations.
 From PV Require Import Model.TriggerDef.
-Open Scope Z_scope.
+Local Open Scope Z_scope.
 
 Definition US : Z := 1000000.
 Definition MIN_US : Z := 60 * US.
@@ -68,6 +68,21 @@ Fixpoint polls (c : cron_conf) (last : option Z) (tss : list Z) : option Z * lis
   | [] => (last, [])
   | ts :: r => let (l1, b) := poll c last ts in
                let (l2, bs) := polls c l1 r in (l2, b :: bs)
+  end.
+
+(* the same through BaseTrigger._should_trigger_cron_condition: with nothing stored yet the schedule is
+   consulted only if the source does so *)
+Definition store_sat (c : cron_conf) (ts : Z) (last : option Z) : bool :=
+  match last with
+  | None => if f_cron_first_poll_checked F then cron_sat c ts None else true
+  | Some _ => cron_sat c ts last
+  end.
+
+Fixpoint store_polls (c : cron_conf) (last : option Z) (tss : list Z) : list bool :=
+  match tss with
+  | [] => []
+  | ts :: r => if store_sat c ts last then true :: store_polls c (Some ts) r
+               else false :: store_polls c last r
   end.
 
 (* ghost: the scheduled minutes the fired polls were attributed to, oldest first *)
